@@ -31,6 +31,25 @@ class Spec(_masterprop.MasterSpec):
             v = dict(v)
             v['suffix'] = (ev,)
             viol.append(v)
+        # shallow states: every single read of the load fails once
+        if len(hist) <= self.cfg.get('read_fault_depth', -1) and not viol:
+            for k in range(getattr(w, 'last_reload_reads', 0) or 0):
+                w2 = statex.build(self, hist)
+                mark2 = len(w2.viol)
+                fev = ('reload-fault', k, True)
+                ok, exc = statex.step(self, w2, fev)
+                stats['c11_read_faults'] += 1
+                for key in ('c11_faulted_loads_aborted',
+                            'c11_faulted_loads_completed'):
+                    stats[key] += w2.stats.get(key, 0)
+                if not ok:
+                    # any other way to die is fine too: the process restarts
+                    stats['c11_faulted_loads_aborted'] += 1
+                    continue
+                for v in w2.viol[mark2:]:
+                    v = dict(v)
+                    v['suffix'] = (fev,)
+                    viol.append(v)
         keep = {k: v for k, v in stats.items() if k.startswith('c11_')}
         return viol, keep
 
@@ -38,6 +57,7 @@ class Spec(_masterprop.MasterSpec):
 def _m1():
     cfg = mastercfg.m1()
     cfg['monitors'] = []
+    cfg['read_fault_depth'] = 2
     cfg['events'] = mastercfg.ev(
         ('app+', 'sm'), ('app+', 'id'), ('app+', 'hi'), ('app+', 'on'),
         ('app+', 'ls'),
